@@ -20,6 +20,7 @@ def dispatch (line : String) : String :=
   | "itedictplan" :: args => Driver.Expr.handlePlan args
   | "truth" :: args => Driver.Expr.handleTruth (Driver.Expr.tokenize (" ".intercalate args))
   | "meta" :: args => Driver.Expr.handleMeta (Driver.Expr.tokenize (" ".intercalate args))
+  | "ac" :: args => Driver.Expr.handleAc (Driver.Expr.tokenize (" ".intercalate args))
   | "rules" :: args => Driver.Expr.handleRules (Driver.Expr.tokenize (" ".intercalate args))
   | _ => "bad-op"
 
